@@ -56,14 +56,26 @@ def _collect(tier):
     for i, p in enumerate(sample):
         pool["f%02d_%s" % (i, os.path.basename(p))] = p
     pool["rejected.vhd"] = REJ
+    # files that leave "sticky" parser state behind if it is not per file: an unclosed pragma region, an unclosed
+    # delimited comment, an unclosed vsg_off tag
+    STICKY = {
+        "sticky_pragma.vhd": "entity e2 is\nend entity e2;\n--vhdl_comp_off\narchitecture a of e2 is\nbegin\nend architecture a;\n",
+        "sticky_comment.vhd": "entity e3 is\nend entity e3;\n/* never closed\narchitecture a of e3 is\nbegin\nend architecture a;\n",
+        "sticky_tag.vhd": "-- vsg_off\nentity E4 is\nend entity E4;\narchitecture A of E4 is\nbegin\nend architecture A;\n",
+    }
+    pool.update(STICKY)
     crasher = os.path.join(common.REPO, "tests", "constant", "rule_017_test_input.vhd")
     names = sorted(pool)
     scen = []
     k = 0
     nsc = 24 if q else 160
+    sticky = [n for n in names if n.startswith("sticky_")]
     for i in range(nsc):
         n = rnd.choice([2, 3, 3, 4, 5])
         files = rnd.sample(names, n)
+        if i % 2 == 0:
+            # a sticky file first, an ordinary one right after it
+            files = [sticky[(i // 2) % len(sticky)]] + [f for f in files if not f.startswith("sticky_")][: n - 1]
         k += 1
         scen.append({"k": k, "files": files, "p": rnd.choice([1, 2, 2, 3]), "fix": rnd.random() < 0.5})
         if i % 3 == 0:
@@ -76,11 +88,11 @@ def _collect(tier):
     for p in (1, 3):
         k += 1
         scen.append({"k": k, "files": long, "p": p, "fix": False})
-    for nm in rnd.sample([n for n in names if n != "rejected.vhd"], 2 if q else 6):
+    for nm in rnd.sample([n for n in names if n != "rejected.vhd" and not n.startswith("sticky_")], 2 if q else 6):
         k += 1
         scen.append({"k": k, "files": [nm], "p": 1, "fix": False, "stdin": True})
     k += 1
-    scen.append({"k": k, "files": [rnd.choice([n for n in names if n != "rejected.vhd"])], "p": 1, "fix": True, "stdin": True})
+    scen.append({"k": k, "files": [rnd.choice([n for n in names if n != "rejected.vhd" and not n.startswith("sticky_")])], "p": 1, "fix": True, "stdin": True})
     nsh = 16
     jobs = []
     for j in range(nsh):
